@@ -121,7 +121,16 @@ fn frame_bytes(f: &Fin) -> anyhow::Result<Vec<u8>> {
         Fin::Bad(0) => vec![0, 0, 0, 3, 0xff, 0xff, 0xff],          // well-framed garbage
         Fin::Bad(1) => vec![0x7f, 0xff, 0xff, 0xff, 1, 2, 3],        // oversized length header
         Fin::Bad(2) => vec![0, 0, 0, 9, 1, 2],                        // a frame cut short by the end of the stream
-        Fin::Bad(_) => vec![0, 0],                                    // the stream ends inside a length header
+        Fin::Bad(3) => vec![0, 0],                                    // the stream ends inside a length header
+        Fin::Bad(_) => {
+            // an empty frame and, in the same write, a complete valid frame behind it: whatever the decoder
+            // makes of the empty one, it must not report "need more data" while a whole frame is buffered
+            let mut v = vec![0, 0, 0, 0];
+            let mut buf = BytesMut::new();
+            codec_encode(WireMessage::Abort(AbortReason::AlreadySyncing), &mut buf)?;
+            v.extend_from_slice(&buf);
+            v
+        }
         _ => vec![],
     })
 }
@@ -176,7 +185,7 @@ pub fn run(seed: u64, n: usize, out: &Path, _thorough: bool) -> anyhow::Result<(
             } else if roll < 62 {
                 script.push(Fin::Msg { init: false, abort: Some(*rng.pick(&[AbortReason::NotFound, AbortReason::AlreadySyncing, AbortReason::InternalServerError])), ns, m: WMessage { parts: vec![] } });
             } else if roll < 70 {
-                let k = rng.below(4) as u8;
+                let k = rng.below(5) as u8;
                 script.push(Fin::Bad(k));
                 break;
             } else if roll < 80 {
@@ -389,7 +398,7 @@ pub fn run(seed: u64, n: usize, out: &Path, _thorough: bool) -> anyhow::Result<(
         cw.push(coq, json)?;
     }
     // the outermost layer: connect_and_sync against handle_connection over real local endpoints
-    let n_net = if _thorough { 80 } else { 10 };
+    let n_net = if _thorough { 120 } else { 20 };
     for _ in 0..n_net {
         let (coq, json) = rt.block_on(crate::c10net::net_case(&mut rng, &mut stats))?;
         if distinct.insert(coq.clone()) { stats.inc("distinct_nontrivial"); }
